@@ -7,7 +7,7 @@ from ..pipeline_prop import PipelineProp
 class C01(PipelineProp):
     pid = "C01"
     design_ref = "6/C01"
-    required_theorems = ['C01_conservation', 'C01_exactly_once', 'C01_qc_partition', 'C01_first_half', 'C01_second_half_keys']
+    required_theorems = ['C01_conservation', 'C01_exactly_once', 'C01_qc_partition', 'C01_first_half', 'C01_second_half_keys', 'C01_never_out_of_fuel']
 
     def rule(self):
         return (
